@@ -1093,7 +1093,14 @@ func (s *Server) handleInputCommand(client *Client, msg *Message) error {
 	}
 
 	cmd := msg.Command()
+	// Only commands that exist and were let in get a metrics label: every
+	// new label value stays allocated for the life of the process, and the
+	// name comes straight from the (possibly unauthenticated) client.
+	nolabel := false
 	defer func() {
+		if nolabel {
+			return
+		}
 		took := time.Since(start).Seconds()
 		cmdDurations.With(prometheus.Labels{"cmd": cmd}).Observe(took)
 	}()
@@ -1166,6 +1173,7 @@ func (s *Server) handleInputCommand(client *Client, msg *Message) error {
 			msg.OutputType = RESP
 			msg.StrictRESP = true
 		}
+		nolabel = true
 		err := writeErr("unknown command '" + msg.Args[0] + "'")
 		msg.OutputType = ot
 		return err
@@ -1192,6 +1200,7 @@ func (s *Server) handleInputCommand(client *Client, msg *Message) error {
 			// This better be an AUTH command or the Message should contain an Auth
 			if cmd != "auth" && msg.Auth == "" {
 				// Just shut down the pipeline now. The less the client connection knows the better.
+				nolabel = true
 				return writeErr("authentication required")
 			}
 			if msg.Auth != "" {
@@ -1320,6 +1329,9 @@ func (s *Server) handleInputCommand(client *Client, msg *Message) error {
 	if err != nil {
 		if err.Error() == goingLive {
 			return err
+		}
+		if strings.HasPrefix(err.Error(), "unknown command ") {
+			nolabel = true
 		}
 		return writeErr(err.Error())
 	}
